@@ -7,7 +7,7 @@ from gen import SeqGen
 ID = "C11"
 HEAP_SUMMARY = True      # end every program with the reference-level observation (BB.Model.Heap vs id() walk)
 LEAN_MODULE = "BB.Properties.C11"
-QUICK_N = 120
+QUICK_N = 200
 THOROUGH_N = 2500
 TOL = 1e-7     # relative to max|wfm|: the filter is evaluated by the same ripasso function on the model's input
 RULE = ("consistent sequences of 1-3 positions (20% subsequences), 1-3 channels (int/str, permuted per element), blueprint and "
